@@ -42,6 +42,23 @@ def dn():
 SYM = ['0', '+', '-', 't', '', 'None', '#', ' ']
 
 
+class Opaque:
+    """a hashable node object with equality by value and NO ordering (u < v raises TypeError)"""
+    __slots__ = ('i',)
+
+    def __init__(self, i):
+        self.i = i
+
+    def __hash__(self):
+        return hash(('Opaque', self.i))
+
+    def __eq__(self, o):
+        return isinstance(o, Opaque) and o.i == self.i
+
+    def __repr__(self):
+        return 'Opaque(%d)' % self.i
+
+
 class Ids:
     def __init__(self, family='int'):
         self.family = family
@@ -64,6 +81,12 @@ class Ids:
             return (i, 'x')
         if f == 'mixed':
             return i if i % 2 == 0 else 'n%03d' % i
+        if f == 'fset':       # partially ordered ids: u < v and v < u are both False, nothing raises
+            return frozenset({('id', i)})
+        if f == 'obj':        # unordered ids: u < v raises TypeError
+            return Opaque(i)
+        if f == 'float':
+            return i + 0.5
         raise ValueError(f)
 
     def back(self, x):
@@ -92,6 +115,13 @@ class Ids:
             return x[0]
         if f == 'mixed':
             return x if isinstance(x, int) else int(x[1:])
+        if f == 'fset':
+            (e,) = tuple(x)
+            return e[1]
+        if f == 'obj':
+            return x.i
+        if f == 'float':
+            return int(x - 0.5)
         raise ValueError(f)
 
 
